@@ -322,7 +322,25 @@ fn h2_box(prop: &str, thorough: bool) -> Vec<(Body, usize)> {
     // five sets of sizes 2,1,1,1,2: with queue 1 one data set carries 2, then 1, then 2 records, so an
     // output vector that is cut down instead of kept would have to re-create slots (C16)
     let fa_updown: (Fmt, &[u8], usize, usize) = (Fmt::Fasta, b">a\nA\n>b\nC\n>c\nACGTAC\n>d\nACGTAC\n>e\nACGTAC\n>f\nA\n>g\nC\n", 12, 5);
-    let inputs = [fa2, fa3, fa3b, fq2, fq3, fa_grow, fq_grow, fa_updown];
+    let mut inputs = vec![fa2, fa3, fa3b, fq2, fq3, fa_grow, fq_grow, fa_updown];
+    if prop == "C16" {
+        // buffers beyond the default 64 KiB: a reader created with a larger capacity (two sets of
+        // 66 000 bytes), and a default-sized reader that has to grow for one long record; the data
+        // sets must be recycled all the same
+        let mut fa_big: Vec<u8> = vec![];
+        for id in [b'a', b'b', b'c'] {
+            fa_big.extend_from_slice(&[b'>', id, b'\n']);
+            fa_big.extend(std::iter::repeat(b'A').take(30_000));
+            fa_big.push(b'\n');
+        }
+        let mut fq_grow_default: Vec<u8> = b"@a\n".to_vec();
+        fq_grow_default.extend(std::iter::repeat(b'A').take(70_000));
+        fq_grow_default.extend_from_slice(b"\n+\n");
+        fq_grow_default.extend(std::iter::repeat(b'I').take(70_000));
+        fq_grow_default.extend_from_slice(b"\n@b\nAC\n+\nII\n@c\nG\n+\nI\n");
+        inputs.push((Fmt::Fasta, Box::leak(fa_big.into_boxed_slice()), 66_000, 2));
+        inputs.push((Fmt::Fastq, Box::leak(fq_grow_default.into_boxed_slice()), 65_536, 1));
+    }
     for &(format, input, cap, nsets) in &inputs {
         for &t in &[1u32, 2] {
             for &q in if thorough { &[1usize, 2, 3][..] } else { &[1usize, 2][..] } {
